@@ -192,3 +192,47 @@ func structFieldNames(n *types.Named) []string {
 	}
 	return out
 }
+
+// callersExactly: the set of repo functions with a call edge to target (outermost
+// named function of each call site) must be a subset of allowed; every allowed
+// caller that disappeared is only noted. Violations name the new caller.
+func (r *Run) callersExactly(rule, key string, edges []*Edge, allowed []string) {
+	allow := map[string]bool{}
+	for _, a := range allowed {
+		allow[a] = true
+	}
+	seen := map[string]*Edge{}
+	for _, e := range edges {
+		n := short(e.Caller.String())
+		if _, ok := seen[n]; !ok {
+			seen[n] = e
+		}
+	}
+	var names []string
+	for n := range seen {
+		names = append(names, n)
+	}
+	sort.Strings(names)
+	for _, n := range names {
+		e := seen[n]
+		if allow[n] {
+			r.OK(rule, key+"/caller:"+n, r.P.InstrPos(e.Site), "vetted caller")
+		} else {
+			r.Viol(rule, key+"/caller:"+n, r.P.InstrPos(e.Site), n+" calls "+e.Label+" but is not in the vetted caller set {"+strings.Join(allowed, ", ")+"}")
+		}
+	}
+}
+
+// edgesTo returns the call edges whose resolved callee is fn.
+func (r *Run) edgesTo(fn *ssa.Function) []*Edge {
+	if fn == nil {
+		return nil
+	}
+	return r.P.CG().In[fn]
+}
+
+// edgesToLabel returns call edges whose label matches the regexp (library callees, interface invokes).
+func (r *Run) edgesToLabel(re string) []*Edge {
+	rx := regexp.MustCompile(re)
+	return r.P.CG().SitesByLabel(func(l string) bool { return rx.MatchString(l) })
+}
